@@ -1589,6 +1589,13 @@ sf_seek	(SNDFILE *sndfile, sf_count_t offset, int whence)
 
 		retval = psf->seek (psf, new_mode, seek_from_start) ;
 
+		if (retval < 0)
+		{	/* The codec could not seek : keep the current positions. */
+			if (psf->error == 0)
+				psf->error = SFE_SEEK_FAILED ;
+			return PSF_SEEK_ERROR ;
+			} ;
+
 		switch (new_mode)
 		{	case SFM_READ :
 					psf->read_current = retval ;
